@@ -3,6 +3,7 @@ import Hertz.Proofs.RespRoundtrip
 import Hertz.Proofs.RespTrailers
 import Hertz.Proofs.RespBodiless
 import Hertz.Proofs.ReqDecodes
+import Hertz.Proofs.Exchange
 /-!
 # C11 — client requests reach the server intact and responses come back intact
 
@@ -68,6 +69,19 @@ Proved for all inputs:
   `Content-Length`/`Transfer-Encoding`, status that may carry a body, `RT.wfRespC`), under either end
   behaviour (`readBodyIdentity` stops at the first read error, EOF or time-out): the body is every byte
   after the head, `rest` is empty, the head is that of the `Content-Length` case with `Connection: close`.
+
+Sequences of exchanges over keep-alive connections (`Model/Http1/Exchange.lean`: `HostClient.Do` for one caller, the
+connection carrying its unread bytes with it; compared with the real `client.Client` by the harness op `c11seq`):
+* `failed_exchange_closes_connection`: whenever an exchange does not return a response (header or body read error,
+  `ErrBodyTooLarge`, time-out, `ErrBadPoolConn`) no connection goes back to the idle pool - so nothing a refused
+  response left unread can be taken for the next response;
+* `exchange_returns_own_response`: with no unread bytes on the pooled connection, what an exchange returns is what
+  the client returns for THIS exchange's response bytes on a new connection (`Exchange.alone`), provided the request
+  may be repeated or the pooled connection is alive and an answer arrives; and if those bytes are one message
+  (`SelfDelimited`) the pool is again free of unread bytes;
+* `sequence_returns_own_responses`: hence, by induction, for every sequence of repeatable requests answered with one
+  message each, from any state without unread bytes, the outcomes are those of the exchanges taken alone - whatever
+  the earlier exchanges were (refused for size, failed, closed by the peer).
 
 TODO-OPEN (not proved as theorems; evaluated per explored case by the spec step):
 * the `SkipBody` flag of the client (`RT.readResponseSkip true`, three lines restating the first `if` of
@@ -411,5 +425,46 @@ theorem request_decodes (r : HW.ReqHdr) (b : ReqBody) (rest : Bytes) (h : WfRequ
 `Connection: close` and the body `xyz` -/
 example : ReqDecodes.WfRequest ReqDecodes.exPost (.fixed [120, 121, 122]) :=
   ⟨by decide, by decide, ⟨ReqDecodes.appendUintDec_3.symm, by decide⟩⟩
+
+/-! ### sequences of exchanges on keep-alive connections -/
+
+open Hertz.H1.Exchange in
+theorem failed_exchange_closes_connection (cfg : Exchange.Cfg) (st : Exchange.St) (rq : Exchange.Req) (sv : Exchange.Srv)
+    (h : (Exchange.exchange cfg st rq sv).2.isOk = false) : (Exchange.exchange cfg st rq sv).1.idle = none :=
+  Exchange.exchange_idle_of_not_ok cfg st rq sv h
+
+def exBig : Exchange.Srv := { resp := [72, 84, 84, 80, 47, 49, 46, 49, 32, 50, 48, 48, 32, 79, 75, 13, 10, 67, 111, 110, 116, 101, 110, 116, 45, 76, 101, 110, 103, 116, 104, 58, 32, 53, 13, 10, 13, 10, 104, 101, 108, 108, 111] }
+def exSmall : Exchange.Srv := { resp := [72, 84, 84, 80, 47, 49, 46, 49, 32, 50, 48, 48, 32, 79, 75, 13, 10, 67, 111, 110, 116, 101, 110, 116, 45, 76, 101, 110, 103, 116, 104, 58, 32, 50, 13, 10, 13, 10, 104, 105] }
+
+/-- non-vacuity: a 5-byte body against a limit of 3 is refused and the next exchange dials again and succeeds;
+without the limit both succeed on one connection -/
+example : ((Exchange.run { maxBody := 3 } {} [({}, exBig), ({}, exSmall)]).map (fun x => (x.1, x.2.isOk))) = [(1, false), (2, true)] ∧
+          ((Exchange.run { maxBody := 0 } {} [({}, exBig), ({}, exSmall)]).map (fun x => (x.1, x.2.isOk))) = [(1, true), (1, true)] := by
+  decide +kernel
+
+theorem exchange_returns_own_response (cfg : Exchange.Cfg) (st : Exchange.St) (rq : Exchange.Req) (sv : Exchange.Srv)
+    (hc : Exchange.Clean st)
+    (h : rq.retryable = true ∨ (sv.resp ≠ [] ∧ ∀ c, st.idle = some c → c.peerClosed = false)) :
+    (Exchange.exchange cfg st rq sv).2 = Exchange.alone cfg rq sv ∧
+    (Exchange.SelfDelimited cfg rq sv → Exchange.Clean (Exchange.exchange cfg st rq sv).1) :=
+  Exchange.exchange_eq_alone cfg st rq sv hc h
+
+example : Exchange.Clean {} ∧ ({} : Exchange.Req).retryable = true ∧ Exchange.SelfDelimited {} {} exSmall := by
+  refine ⟨Exchange.clean_init, rfl, ?_⟩
+  intro r h
+  have hv : (readResponseSkip false false 0 (Exchange.endOf (Exchange.serve {} exSmall)) exSmall.resp).toOption.map (·.rest) = some [] := by
+    decide +kernel
+  have h' : readResponseSkip false false 0 (Exchange.endOf (Exchange.serve {} exSmall)) exSmall.resp = .ok r := h
+  rw [h'] at hv
+  simpa [Except.toOption] using hv
+
+theorem sequence_returns_own_responses (cfg : Exchange.Cfg) (xs : List (Exchange.Req × Exchange.Srv)) (st : Exchange.St)
+    (hc : Exchange.Clean st) (hx : ∀ x ∈ xs, x.1.retryable = true ∧ Exchange.SelfDelimited cfg x.1 x.2) :
+    (Exchange.run cfg st xs).map (·.2) = xs.map (fun x => Exchange.alone cfg x.1 x.2) :=
+  Exchange.run_eq_alone cfg xs st hc hx
+
+/-- non-vacuity: the refused oversize answer and the small one, each as if alone -/
+example : (Exchange.run { maxBody := 3 } {} [({}, exBig), ({}, exSmall)]).map (·.2) =
+    [Exchange.alone { maxBody := 3 } {} exBig, Exchange.alone { maxBody := 3 } {} exSmall] := by decide +kernel
 
 end Hertz.Props.C11
